@@ -395,7 +395,7 @@ func illConditionedWith(c *Case, impl, ref Canon, mk func(EngineCfg) queryMaker)
 	}
 	cfg := c.Cfg()
 	moved, _ := runQuery(mk(cfg), NewStore(pert), cfg, c.Query, c.Window)
-	if diffCanon(moved, ref, false) != "" && explainedBy(impl, ref, moved) {
+	if diffCanon(moved, ref, false) != "" && explainedBy(impl, ref, moved, true) {
 		return true
 	}
 	// ... or when the same samples are summed in another order (the storage returns the
@@ -411,7 +411,7 @@ func illConditionedWith(c *Case, impl, ref Canon, mk func(EngineCfg) queryMaker)
 			}
 		}
 		other, _ := runQuery(mk(cfg), NewStore(re), cfg, c.Query, c.Window)
-		if d := diffCanon(other, ref, false); d != "" && other.Kind == ref.Kind && len(other.Series) == len(ref.Series) && explainedBy(impl, ref, other) {
+		if d := diffCanon(other, ref, false); d != "" && other.Kind == ref.Kind && len(other.Series) == len(ref.Series) && explainedBy(impl, ref, other, false) {
 			return true
 		}
 	}
@@ -422,8 +422,9 @@ func illConditionedWith(c *Case, impl, ref Canon, mk func(EngineCfg) queryMaker)
 // difference between impl and ref counts as a matter of conditioning only where it is of the size
 // of what the perturbation did to the reference's own result (times 1e4): a result that the
 // perturbation moves by 1e-13 does not excuse a difference of 1.5. A perturbation that changes the
-// shape of the result (a comparison flipping) or its NaN/Inf pattern at a point excuses that point.
-func explainedBy(impl, ref, moved Canon) bool {
+// shape of the result (a comparison flipping) or - for perturbed inputs only - its NaN/Inf pattern
+// at a point excuses that point.
+func explainedBy(impl, ref, moved Canon, patternMayChange bool) bool {
 	if moved.Kind != ref.Kind || len(moved.Series) != len(ref.Series) {
 		return true
 	}
@@ -437,7 +438,9 @@ func explainedBy(impl, ref, moved Canon) bool {
 			if floatEq(a, b, false) {
 				continue
 			}
-			if math.IsNaN(mv) != math.IsNaN(b) || math.IsInf(mv, 0) != math.IsInf(b, 0) {
+			// a perturbation of the inputs may cross an overflow boundary; another order of the same
+			// inputs must not turn a number into NaN or Inf (that is a dependence on the order, not rounding)
+			if patternMayChange && (math.IsNaN(mv) != math.IsNaN(b) || math.IsInf(mv, 0) != math.IsInf(b, 0)) {
 				continue
 			}
 			if math.IsNaN(a) || math.IsNaN(b) || math.IsInf(a, 0) || math.IsInf(b, 0) {
